@@ -187,17 +187,15 @@ func (s *stringObject) getOwnPropStr(name unistring.String) Value {
 
 func (s *stringObject) getOwnPropIdx(idx valueInt) Value {
 	i := int64(idx)
-	if i >= 0 {
-		if i < int64(s.length) {
-			val := s._getIdx(int(i))
-			return &valueProperty{
-				value:      val,
-				enumerable: true,
-			}
+	if i >= 0 && i < int64(s.length) {
+		val := s._getIdx(int(i))
+		return &valueProperty{
+			value:      val,
+			enumerable: true,
 		}
-		return nil
 	}
 
+	// an index beyond the string is an ordinary own property (s[5] = 1)
 	return s.baseObject.getOwnPropStr(idx.string())
 }
 
@@ -234,7 +232,8 @@ func (s *stringObject) setForeignIdx(idx valueInt, val, receiver Value, throw bo
 
 func (s *stringObject) defineOwnPropertyStr(name unistring.String, descr PropertyDescriptor, throw bool) bool {
 	if i := strToGoIdx(name); i >= 0 && i < s.length {
-		_, ok := s._defineOwnProperty(name, &valueProperty{enumerable: true}, descr, throw)
+		// IsCompatiblePropertyDescriptor against the string's own {value: char, enumerable: true}
+		_, ok := s._defineOwnProperty(name, &valueProperty{value: s._getIdx(i), enumerable: true}, descr, throw)
 		return ok
 	}
 
@@ -242,13 +241,8 @@ func (s *stringObject) defineOwnPropertyStr(name unistring.String, descr Propert
 }
 
 func (s *stringObject) defineOwnPropertyIdx(idx valueInt, descr PropertyDescriptor, throw bool) bool {
-	i := int64(idx)
-	if i >= 0 && i < int64(s.length) {
-		s.val.runtime.typeErrorResult(throw, "Cannot redefine property: %d", i)
-		return false
-	}
-
-	return s.baseObject.defineOwnPropertyStr(idx.string(), descr, throw)
+	// same as the string-keyed copy: a compatible descriptor on a character index is accepted
+	return s.defineOwnPropertyStr(idx.string(), descr, throw)
 }
 
 type stringPropIter struct {
